@@ -235,7 +235,27 @@ fn handler_calls(which: &'static str) -> ExecResult {
     res
 }
 
+const HANDLER_SCENARIOS: [&str; 7] = [
+    "method-registers-object",
+    "method-registers-then-removes",
+    "mut-method-registers-object",
+    "method-emits-signal",
+    "property-getter-registers-object",
+    "property-setter-registers-object",
+    "getall-getter-registers-object",
+];
+
 pub fn main(args: &Args) -> i32 {
+    if let Some(p) = &args.replay {
+        return crate::sched::replay(p, |name, _| {
+            if name == "on-demand" {
+                return Some(Box::new(on_demand));
+            }
+            let which = HANDLER_SCENARIOS.iter().find(|s| **s == name)?;
+            let which: &'static str = which;
+            Some(Box::new(move || handler_calls(which)))
+        });
+    }
     let report = Report::new("C30", args.tier, args.seed, "model_checking");
     let totals = Mutex::new(Totals::default());
     let plan = SchedPlan {
